@@ -40,6 +40,7 @@ class State(object):
         self.fresh_objs = set()
         self.loop_idx = []
         self.aux = {}
+        self.dead = False
 
     def fork(self):
         s = State()
@@ -53,11 +54,14 @@ class State(object):
         s.fresh_objs = set(self.fresh_objs)
         s.loop_idx = list(self.loop_idx)
         s.aux = dict(self.aux)
+        s.dead = self.dead
         return s
 
     def assume(self, f):
         if self.guards:
             f = z3.Implies(z3.And(*self.guards), f)
+        elif z3.is_false(z3.simplify(f)):
+            self.dead = True          # the normal continuation of this path is impossible
         self.pc.append(f)
 
 
@@ -146,6 +150,7 @@ class Executor(object):
             c.call_result = res
             c.loop_idx = list(st.loop_idx)
             c.asserts = []
+            c.last_call = st.aux.get('last_call')
             h.fn(c)
             for f in c.extra:
                 st.pc.append(f)
@@ -224,6 +229,8 @@ class Executor(object):
             s.add(a)
         for a in st.fp.facts:
             s.add(a)
+        for a in strconst_axioms():
+            s.add(a)
         if extra is not None:
             s.add(extra)
         r = s.check()
@@ -294,13 +301,16 @@ class Executor(object):
                 raise Undecided('%s outside a loop' % kind)
         return self.obls
 
-    def name_value(self, st, v, hint):
+    def name_value(self, st, v, hint, scalars=False):
         """Give a compound ground term a name (fresh constant), so that contract formulas and
         quantifier patterns mention constants rather than store/lambda towers."""
         if isinstance(v, (PyTuple, PyDict)) or v.t is None or not is_ground(v.ty):
             return v
-        if not z3.is_expr(v.t) or z3.is_const(v.t) or isinstance(v.ty, (IntT, FloatT, BoolT)):
+        if not z3.is_expr(v.t) or z3.is_const(v.t):
             return v
+        if isinstance(v.ty, (IntT, FloatT, BoolT)):
+            if not scalars or FP.is_num(z3.simplify(v.t)) or z3.is_true(v.t) or z3.is_false(v.t):
+                return v
         nv = fresh(v.ty, hint)
         st.pc.append(nv.t == v.t)
         return nv
@@ -437,7 +447,8 @@ class Executor(object):
         for (rst, exc, node) in self._raised:
             res.append((rst, ('raise', rst, exc, node)))
         self._raised = []
-        res.append((st, v))
+        if not st.dead:
+            res.append((st, v))
         return res
 
     def stmt_Assign(self, s, st):
@@ -1449,7 +1460,8 @@ class Executor(object):
         bound = {}
         for pname, spec in case.params.items():
             if pname in args:
-                bound[pname] = self.fit_arg(st, args[pname], spec, node, pname)
+                bound[pname] = self.name_value(st, self.fit_arg(st, args[pname], spec, node, pname), 'arg_' + pname,
+                                               scalars=True)
             elif pname in case.defaults:
                 bound[pname] = case.defaults[pname]
             else:
@@ -1492,8 +1504,12 @@ class Executor(object):
             rst.pc.append(z3.And(*(rst.guards + [cond])) if rst.guards else cond)
             if self.feasible(rst):
                 self._raised.append((rst, exc, node))
+        nontrivial = False
         for exc, cond in conds.items():
             st.assume(z3.Not(cond))
+            nontrivial = nontrivial or not z3.is_false(z3.simplify(cond))
+        if nontrivial and not st.dead and not st.guards and not self.feasible(st):
+            st.dead = True            # the callee always raises here
         # result
         rt = case.returns
         if rt is None or isinstance(rt, NoneT):
@@ -1511,10 +1527,15 @@ class Executor(object):
                 st.assume(f)
         c2 = Ctx(self, bound, pre_heap, st.heap, case=case)
         c2.fp = st.fp
+        view = getattr(self.case, 'callee_views', {}).get(qualname)
         for (label, f) in case.ensures(c2, res):
+            if view is not None and not any(label.startswith(p) for p in view):
+                continue           # the caller uses only part of the callee's postcondition (sound: fewer facts)
             st.assume(f)
         for x in c2.extra:
             st.assume(x)
+        gouts = dict((k[len('_ghost_out_'):], v) for k, v in vars(c2).items() if k.startswith('_ghost_out_'))
+        st.aux['last_call'] = dict(qualname=qualname, case=case.name, args=bound, result=res, ghost_outs=gouts)
         return res
 
     def match_case(self, st, case, args):
